@@ -25,7 +25,7 @@ META = {
 
 @st.composite
 def case(draw):
-    s = draw(GS.spec2d_case(max_nf=16, max_nd=144, max_cells=12000, relabel=True, history=True))
+    s = draw(GS.spec2d_case(max_nf=16, max_nd=144, max_cells=12000, relabel=True, history=True, dtypes=True))
     b = draw(GS.band(s["f"]))
     return {"spec": s, **b}
 
@@ -146,6 +146,8 @@ def run(c):
     classes = ["grid_" + sc["dir_kind"], "layout_" + sc["layout"], "values_" + sc["values"]]
     if sc.get("history"):
         classes.append("object_modified_in_place_after_earlier_queries")
+    if sc.get("dtype"):
+        classes.append("density_stored_as_" + sc["dtype"])
     if sc["roll"]:
         classes.append("rolled")
     if d[0] != 0:
